@@ -112,6 +112,45 @@ def shrink(env, chain, ops, key):
     return cur
 
 
+import itertools as _it
+from pydantic import BaseModel as _BM, Field as _Field
+_TOK = _it.count(1)
+
+
+class Tok(_BM):
+    token: int = _Field(default_factory=lambda: next(_TOK))
+    note: str = "n"
+
+
+def _stable_defaults(env):
+    from workflows.context.state_store import InMemoryStateStore
+    import vloop
+    out = []
+    for store_name in ("memory", "sqlite"):
+        for first in ("get", "get_state", "edit_state"):
+            async def main():
+                store = InMemoryStateStore(Tok()) if store_name == "memory" else env.fresh_sql(Tok)[0]
+                seen = []
+                if first == "get":
+                    seen.append(await store.get("token"))
+                elif first == "get_state":
+                    seen.append((await store.get_state()).token)
+                else:
+                    async with store.edit_state() as st:
+                        seen.append(st.token)
+                seen.append(await store.get("token"))
+                seen.append((await store.get_state()).token)
+                await store.set("note", "written")
+                seen.append(await store.get("token"))
+                return seen
+            seen = vloop.run(main())
+            if len(set(seen)) != 1:
+                out.append(dict(why="%s store, typed state with a default_factory field: successive reads of that field around the "
+                                    "first write return %s (first read through %s)" % (store_name, seen, first),
+                                store=store_name, first_read=first, values=seen))
+    return out
+
+
 def run(ctx):
     ctx.rule = ("random op sequences (1-12 ops: get/set by dotted path incl. numeric, negative, padded and "
                 "out-of-range segments, defaults, set_state with same/parent/sub/unrelated class, clear, edit_state, "
@@ -163,6 +202,10 @@ def run(ctx):
                         dict(kind="implementation-monitor", state_class=chain, ops=S.jsonable(small),
                              original_ops=S.jsonable(ops), detail=S.jsonable(detail), rerun=S.jsonable(rep),
                              replay_hint="bin/check C19 --replay <this file> re-executes `ops` on both real stores"))
+        # ---- the state of a run is ONE value from its first read on: a typed state whose defaults come from a
+        # default_factory (run token, counter) reads the same before and after the first write, on both stores
+        for w in _stable_defaults(env):
+            ctx.violation("C19 fails on the real code: " + w["why"], dict(kind="implementation-monitor", suite="statestore.defaults", detail=w))
     finally:
         env.close()
         shutil.rmtree(dbdir, ignore_errors=True)
